@@ -262,4 +262,22 @@ theorem gen_packOffsets (cip count : Nat) :
   rw [show (Generated.packOffsetsNew packInfoBlockSize cip count).2 = count from rfl, drainOffsets_eq _ count _ _ (by omega)]
   rfl
 
+/-! ### `FsLocator::locate` -/
+
+/-- **`FsLocator::locate` translated on every run is `fsLocate` of the container model**: nothing is opened
+    unless the recorded location names a regular file; the file is then opened blindly (as a container pack
+    or a single pack) and the pack is looked up by uuid; an error of the open is passed on; a file without that
+    uuid answers "not here". -/
+theorem gen_fsLocate (fs : FS) (uuid : Bytes) (location : String) :
+    fsLocate fs uuid location =
+      Generated.fsLocatorLocate (decide (location ≠ "" ∧ (fs.get location).isSome)) (Outcome.ok ((fs.get location).getD []))
+        (fun f => blindOpen f)
+        (fun packs => (packs.find? (fun p => p.uuid == uuid)).map (fun p => (⟨location, p⟩ : Located))) := by
+  unfold fsLocate Generated.fsLocatorLocate
+  by_cases h : location = ""
+  · simp [h]
+  · cases hf : fs.get location with
+    | none => simp [h]
+    | some f => simp [h, bind, Outcome.bind]
+
 end Jubako
